@@ -156,7 +156,8 @@ class C12Host(E.EpHost):
                 return True
             if E.out_depth(e) - self.out_fill[e[1]] < e[2]:
                 yield from self.consume(e)
-            n = self.rng.range(1, min(e[2], 3))
+            # never more than the room the host knows of (legal host: an OUT packet fits into the FIFO)
+            n = min(self.rng.range(1, min(e[2], 3)), max(0, E.out_depth(e) - self.out_fill[e[1]]))
             yield from self.emit(["tok", O, self.addr, e[1]])
             r = yield from self.emit(["data", U.PID_DATA1 if self.out_pid[e[1]] else U.PID_DATA0, self.rng.bytes(n), 1])
             if r.resp.is_hs(U.PID_ACK):
